@@ -26,7 +26,7 @@ var props = []Prop{
 		Level: "proof",
 		Harnesses: hs("ecs", true, 1, "HC04_Get", "HC04_Set", "HC04_Not", "HC04_AndOrXor", "HC04_Contains", "HC04_ContainsAny",
 			"HC04_IsZeroReset", "HC04_TotalBitsSet", "HC04_All", "HC04_MaskMatches", "HC04_MaskFilter", "HC04_Without", "HC04_Exclusive", "HC04_Equality"),
-		Extra: append(hs("filter", true, 1, "HC04_Leaves", "HC04_LeafSemantics"), H{Pkg: "filter", Fn: "HC04_Logic"}, H{Pkg: "filter", Fn: "HC04_Logic", Tags: "tiny", Tier: "thorough"}),
+		Extra: append(hs("filter", true, 1, "HC04_Leaves", "HC04_LeafSemantics"), H{Pkg: "filter", Fn: "HC04_Logic"}, H{Pkg: "filter", Fn: "HC04_Logic", Tags: "tiny", Tier: "thorough"}, H{Pkg: "ecs", Fn: "HConf_Bits", W: 1}),
 		Conform: stdConform,
 		Bounds:  "masks and ids fully symbolic (all 2^256 / 2^64 masks, all 256 / 64 ids); All/Without with at most 4/3 ids; logic filters nested to depth 2 (all shapes) and depth 3 (spines)",
 		Outside: "All() with more than 4 ids; logic nesting deeper than 3; tiny build behaviour for ids >= 64",
@@ -79,7 +79,7 @@ var props = []Prop{
 	},
 	{
 		ID: "C06",
-		Harnesses: []H{{Pkg: "ecs", Fn: "HC06_TargetDeath"}, {Pkg: "ecs", Fn: "HC06_TargetDeath", Tags: "tiny", Tier: "thorough"}, {Pkg: "ecs", Fn: "HDeep"}, {Pkg: "ecs", Fn: "HC06_BitSet", W: 2}},
+		Harnesses: []H{{Pkg: "ecs", Fn: "HC06_TargetDeath"}, {Pkg: "ecs", Fn: "HC06_TargetDeath", Tags: "tiny", Tier: "thorough"}, {Pkg: "ecs", Fn: "HDeep"}, {Pkg: "ecs", Fn: "HC06_BitSet", W: 2}, {Pkg: "ecs", Fn: "HC06_Stats", W: 4}},
 		Conform: stdConform,
 		Bounds:  "8 prefixes (two parents with children, dead target with non-empty table, retired table, two relation types, dead target with re-issued id, self-targeting entity, alive parent with active-but-empty child table, Reset over populated relation tables followed by new parents) x 1 (thorough: 2) symbolic operations out of RemoveEntity(any alive), Batch.RemoveEntities (All / mask / relation filter with any target), creation of a child (ids only or with values) for zero or any alive parent, Relations.Set, Reset, batch SetRelation, batch add/remove of other components through mask and relation filters; plus HDeep (all histories of 3, thorough 4, reduced-argument operations from an empty world incl. removals, retargeting, batch removal, Reset); after every step the structural invariant (free list without duplicates, target map = active tables, storage beyond len zero, retired tables empty and zeroed), at the end all observables vs the model incl. zero-initialised components and relation queries for every target; 3 configurations (thorough 6)",
 		Outside: "more than 2 operations after the prefix; more than 10 entities",
